@@ -391,6 +391,10 @@ def r11_4(run, registered_ufuncs):
             run.ob("R11.4", loc(au, c), au.short, "the unwrapping caster is used only for the bool-only set", ok,
                    "caster = asarray only under `ufunc in _REGISTERED_BOOL_ONLY_UFUNC`" if ok else
                    "const-only ufuncs get the silent unwrapping caster: non-constant tensors are dropped from the graph")
+        elif isinstance(c.value, ast.Constant) and c.value.value is None and any(
+                cfg.label[n] == "If" and norm(s_) in ("caster is None", "caster is not None", "not caster", "caster") for n, s_ in cfg.stmt.items()):
+            # "no caster": the branch for ufuncs in neither set; the None is tested before any call (a call through None would raise anyway)
+            continue
         else:
             run.ob("R11.4", loc(au, c), au.short, f"caster = {norm(c.value)}", False, "unknown caster")
     # any other way of binding the caster (a nested def, a lambda, a conditional expression) is an unknown caster
